@@ -197,6 +197,20 @@ def rule_r2(ctx) -> RuleResult:
                 rr.ok(fnname, k + " is (?is)", {"step": k, "pattern": pat})
             else:
                 rr.bad(Finding("C04.R2", X.CORE, fnname, pat, "tag pattern is not (?is): sibling patterns are", n.lineno))
+            if k == "noinclude_paired":
+                # what is removed is the section itself: every match begins with the opening tag and ends with the `>` of the
+                # closing tag (language inclusion) -- a pattern that also takes the line break after it changes the includable text
+                ref = r"(?is)<noinclude\s*>.*</noinclude\s*>"
+                try:
+                    cex = rx.included_in_prefix(str(pat), ref, thorough=ctx.thorough, full=True)
+                except AnalysisError:
+                    cex = None
+                if cex is not None:
+                    rr.bad(Finding("C04.R2", X.CORE, fnname, pat,
+                                   "the noinclude removal can match {!r}, i.e. more than the section from <noinclude> to </noinclude>: text "
+                                   "outside the section (here what follows the closing tag) disappears from the transcluded body".format(cex), n.lineno))
+                else:
+                    rr.ok(fnname, "noinclude removal matches exactly a <noinclude>...</noinclude> section")
             if k == "noinclude_paired" and ".*?" not in pat:
                 rr.bad(Finding("C04.R2", X.CORE, fnname, pat, "paired noinclude removal is greedy: text between two noinclude blocks is lost", n.lineno))
     # no shortcut: every return comes after all reduction steps (a "nothing to do" fast path decides by
